@@ -351,7 +351,7 @@ impl<'a> Cmp<'a> {
 impl<'a> Cmp<'a> {
     /// Nets consumed by an FF (D, clock, reset), a RAM port or an output port must be driven by
     /// something after the AIG pass: an `Undriven` one means the pass deleted its logic cone.
-    /// `dangling <tag>` → number of such nets in the cones of data sinks (outputs, FF D) / FF clock+reset pins /
+    /// `dangling <tag> rams=<number of RAM blocks>` → number of such nets in the cones of data sinks (outputs, FF D) / FF clock+reset pins /
     /// RAM pins; oracle: all 0; the model has no say (`?`).
     pub fn dangling(&mut self, tag: &str, g: &GateModule) {
         let mut ffctl = vec![];
@@ -382,7 +382,11 @@ impl<'a> Cmp<'a> {
         };
         let (d, f, r) = (count(gate_sinks(g)), count(ffctl), count(ram));
         bump(&mut self.hist, &format!("dangling.{tag}.{}", if d + f + r == 0 { "none" } else { "some" }));
-        self.log.push3(format!("dangling {tag}"), format!("data={d} ffctl={f} ram={r}"), "data=0 ffctl=0 ram=0".into());
+        self.log.push3(
+            format!("dangling {tag} rams={}", g.ram_blocks.len()),
+            format!("data={d} ffctl={f} ram={r}"),
+            "data=0 ffctl=0 ram=0".into(),
+        );
     }
 
     /// Checker self-test: change the kind of one cell of the tech-mapped netlist `t` (same arity) and
